@@ -14,6 +14,8 @@ verus! {
 // paths the extracted bodies name through `crate::` (T8)
 pub mod buffer { pub use crate::real::{Block, Token, Style}; }
 pub use crate::real::disambiguate_short;
+#[cfg(feature = "autocomplete")]
+pub mod complete_run { pub use crate::real::ArgScanner; }
 
 /// completion bookkeeping (src/complete_gen.rs): opaque; the extracted code only moves it around (T8)
 #[cfg(feature = "autocomplete")]
@@ -124,6 +126,9 @@ pub mod prelude {
 
     pub assume_specification<T, A: std::alloc::Allocator>[ <Rc<[T], A> as From<Vec<T, A>>>::from ](v: Vec<T, A>) -> (r: Rc<[T], A>)
         ensures r@ == v@;
+
+    pub assume_specification<T: std::ops::Deref>[ Option::<T>::as_deref ](o: &Option<T>) -> (r: Option<&<T as std::ops::Deref>::Target>)
+        ensures r is Some == o is Some;
 
     /// A-alloc: a Vec of a non-zero-sized element type cannot hold usize::MAX elements (allocations are bounded by isize::MAX bytes)
     #[verifier::external_body]
@@ -2228,14 +2233,34 @@ pub fn disambiguate_short(os: OsString, short: String, short_flags: &[char], sho
         forall|i: int| old(items).len() <= i < final(items).len() ==> !(#[trigger] final(items)[i] is PosWord),
 { unimplemented!() }
 
+
+// completion marker scanner (feature = "autocomplete"): the struct is extracted, its two methods are assumed
+//@@ type src/complete_run.rs | struct ArgScanner
+//@@ unit complete_run.ArgScanner tags=
+//@@ end
+
+#[cfg(feature = "autocomplete")]
+impl ArgScanner<'_> {
+    /// assumed (str matching / process::exit code): recognises the completion marker items; touches only `revision`
+    #[verifier::external_body]
+    pub fn check_next(&mut self, arg: &std::ffi::OsStr) -> (r: bool)
+        ensures final(self).name == old(self).name, !r ==> final(self).revision == old(self).revision,
+    { unimplemented!() }
+    /// assumed: completion bookkeeping exists iff a revision was requested
+    #[verifier::external_body]
+    pub fn done(&self) -> (r: Option<crate::complete_gen::Complete>)
+        ensures r is Some == self.revision is Some,
+    { unimplemented!() }
+}
+
 //@@ fn src/args.rs | mod inner | impl State | fn construct
-//@@ unit args.State.construct tags=C09,C10,C03,C04 only=default loops=1 desugar_for=1
+//@@ unit args.State.construct tags=C09,C10,C03,C04,C20 loops=1 desugar_for=1
 //@@ ret r
 //@@ spec
         requires *old(err) is None,
         ensures
             r.wf() && r.scope.start == 0 && r.scope.end == r.items.len(), // #whole_line_in_scope
-            *final(err) is None ==> dd_rule(r.items@, r.item_state@), // #only_the_first_double_dash_separates_and_is_pre_consumed
+            *final(err) is None && no_comp(r) ==> dd_rule(r.items@, r.item_state@), // #only_the_first_double_dash_separates_and_is_pre_consumed
 //@@ loop 1
             invariant_except_break
                 *err is None,
@@ -2254,13 +2279,14 @@ proof { axiom_os_eq_ref_obeys(); }
 proof {
     axiom_arg_vec_len(items);
     let n = items.len() as int;
-    if double_dash_marker is Some {
+    let fresh = Seq::new(items.len() as nat, |i: int| ItemState::Unparsed);
+    lemma_count_all_present(fresh, 0, n);
+    if double_dash_marker is Some && item_state@[double_dash_marker->Some_0 as int] is Parsed {
         let m = double_dash_marker->Some_0 as int;
-        let fresh = Seq::new(items.len() as nat, |i: int| ItemState::Unparsed);
         assert(item_state@ =~= fresh.update(m, ItemState::Parsed));
-        lemma_count_all_present(fresh, 0, n);
     } else {
-        lemma_count_all_present(item_state@, 0, n);
+        // no separator, or (completion mode only) a trailing `--` that is left available for completion
+        assert(item_state@ =~= fresh);
     }
 }
 let ghost g_items = items@;
